@@ -606,6 +606,17 @@ def gen_choose_case(rng, lang):
     return nodes
 
 
+def corpus_cases():
+    """minimised past disagreements / defects (corpus/C04/*.json), run first by shard 0"""
+    import glob, os
+    root = os.path.dirname(os.path.dirname(os.path.dirname(os.path.abspath(__file__))))
+    out = []
+    for p in sorted(glob.glob(os.path.join(root, 'corpus', 'C04', '*.json'))):
+        with open(p) as f:
+            out.append(json.load(f))
+    return out
+
+
 def gen_case(rng, i):
     lang = rng.choice(LANGS)
     r = rng.random()
@@ -660,6 +671,10 @@ def shard(arg):
     rng = random.Random('%s/%s/C04' % (seed, idx))
     res = Result()
     cases = [gen_case(rng, i) for i in range(n)]
+    if idx == 0:
+        cases = corpus_cases() + cases
+        n = len(cases)
+        res.count('corpus', n - len(cases) + len(corpus_cases()))
     docs = doc_answers([dict(c, check='doc') for c in cases]) if use_model else [None] * n
     impls = impl_answers(cases, exact=True) if use_model else [(None, None)] * n
     preps = prepared_model(cases) if use_model else [None] * n
@@ -719,7 +734,7 @@ def shard(arg):
 
 def run(ctx):
     nsh = 16
-    per = ctx.n(200, 3000)
+    per = ctx.n(160, 3000)
     res = Result()
     for r in pmap('harness.props.c04', 'shard', [(ctx.seed, i, per, True) for i in range(nsh)]):
         res.merge(r)
